@@ -294,11 +294,17 @@ def src_rule(ctx: Ctx, rid: str) -> None:
                                          for st in n.body if not isinstance(st, (ast.If, ast.For, ast.While, ast.Try))
                                          for c in calls_in(st)):
             found = True
-            names = {x.id for x in ast.walk(n.test) if isinstance(x, ast.Name)}
-            ok = set(addr_names) <= names and isinstance(n.test, ast.BoolOp) and isinstance(n.test.op, ast.Or) \
-                and all(isinstance(v, ast.Compare) and isinstance(v.ops[0], ast.Eq) for v in n.test.values)
+            test = n.test
+            if isinstance(test, ast.Name):  # condition bound to a local first
+                bs = [a.value for a in walk_no_nested(beh.node) if isinstance(a, ast.Assign) and len(a.targets) == 1
+                      and isinstance(a.targets[0], ast.Name) and a.targets[0].id == test.id]
+                if len(bs) == 1:
+                    test = bs[0]
+            names = {x.id for x in ast.walk(test) if isinstance(x, ast.Name)}
+            ok = set(addr_names) <= names and isinstance(test, ast.BoolOp) and isinstance(test.op, ast.Or) \
+                and all(isinstance(v, ast.Compare) and isinstance(v.ops[0], ast.Eq) for v in test.values)
             r.check(ok, "ID.hazard-compare", beh.loc(n),
-                    f"the stall condition `{seg(beh, n.test)}` does not compare both {addr_names[0]} and "
+                    f"the stall condition `{ast.unparse(test)}` does not compare both {addr_names[0]} and "
                     f"{addr_names[1]} with the in-flight destination")
     if not found:
         raise AnalysisError("anchor vanished: the `if` that requests the decode stall")
